@@ -66,14 +66,26 @@ func init() {
 	})
 	register(&PropDef{
 		ID: "C03", Quick: 5000, Thorough: 150000, Level: "exploration",
-		Rule: "single-client histories with bitmap indexes created and dropped at any point (several per column; numeric threshold, string equality/prefix, bool families), writes, merges, deletes, reuse, multi-block transactions and restarts (snapshot+restore); after every step every index is compared, through With(ix) and Row.Bool(ix), with its predicate evaluated on the model values; " + ruleSeq,
+		Rule: "single-client histories with bitmap indexes created and dropped at any point (several per column; numeric threshold, string equality/prefix, bool families), writes, merges, deletes, reuse, multi-block transactions and restarts (snapshot+restore); after every step every index is compared, through With(ix) and Row.Bool(ix), with its predicate evaluated on the model values; every third run (part B) builds indexes on a populated multi-block collection while 1-3 writers commit (yield point before each block of the back-fill) and compares every index with its predicate at quiescence; " + ruleSeq,
 		Gen: func(seed uint64, run int, tier string) *Case {
 			p := seqProfile{minSteps: 5, maxSteps: 28, wTxn: 20, wCreateIndex: 4, wDropIndex: 2, wRestart: 1, wCreateCol: 1,
 				wInsert: 8, wAt: 10, wRange: 3, wDelete: 3, wDeleteAll: 1,
 				pAbort: 0.05, pMerge: 0.4, maxCols: 6, multiBlock: 0.5, indexes: true, filters: true}
+			if run%3 == 2 {
+				// part B: indexes are created on a populated collection while writers commit (yield
+				// point before each block of the back-fill); judged at quiescence
+				return genConc("C03", seed, run, concProfile{minWriters: 1, maxWriters: 3, maxTxns: 3, maxOps: 3, indexers: 1,
+					wUpdate: 10, wMerge: 4, wInsert: 2, wDeleteOwn: 2, wRangeWrite: 1,
+					pAbort: 0.05, multiBlock: 0.6, maxCols: 4, stableRows: [2]int{2, 6}}, knownAvoid("C03", seed, run))
+			}
 			return genSeq("C03", seed, run, p, knownAvoid("C03", seed, run))
 		},
-		Exec: func(cs *Case) *World { return runSeq(cs, seqOracles{dump: true}) },
+		Exec: func(cs *Case) *World {
+			if cs.World == "conc" {
+				return runConc(cs, concOracles{})
+			}
+			return runSeq(cs, seqOracles{dump: true})
+		},
 		Real: realComponents, Stub: seqStub,
 	})
 	register(&PropDef{
@@ -91,9 +103,9 @@ func init() {
 	concStub := []string{"thread scheduler (real goroutines released one at a time at repo hooks; enabledness from the real latch words)", "link: FIFO with seeded delay in front of the real commit.Channel", "disk: in-memory SimFile/SimReader under the real commit.Log and Snapshot/Restore"}
 	register(&PropDef{
 		ID: "C06", Quick: 4000, Thorough: 120000, Level: "exploration",
-		Rule: "2-5 concurrent writer threads (all column kinds, inserts with offset reuse, deletes, merges, multi-block transactions) on a primary whose every commit is tapped inside the block latch and forwarded to a real commit.Channel (consumed by an applier thread after a seeded link delay and replayed on REPLICA-C) and to a real commit.Log on a SimFile (replayed on REPLICA-L through a chunking reader); schedule drawn per run from uniform/sticky/PCT/round-robin/phase-biased strategies over all hook points; at quiescence Dump(primary)==Dump(REPLICA-C)==Dump(REPLICA-L)==model; non-trivial = at least one commit and at least one scheduling decision with more than one enabled thread; distinct = distinct (interleaving signature, end state)",
+		Rule: "2-5 concurrent writer threads (all column kinds, inserts with offset reuse, deletes, merges, multi-block transactions) on a primary whose every commit is tapped inside the block latch and forwarded to a real commit.Channel (consumed by an applier thread after a seeded link delay and replayed on REPLICA-C) and to a real commit.Log on a SimFile (replayed on REPLICA-L through a chunking reader); in odd runs a snapshotter thread takes snapshots meanwhile; schedule drawn per run from uniform/sticky/PCT/round-robin/phase-biased strategies over all hook points; at quiescence Dump(primary)==Dump(REPLICA-C)==Dump(REPLICA-L)==model; non-trivial = at least one commit and at least one scheduling decision with more than one enabled thread; distinct = distinct (interleaving signature, end state)",
 		Gen: func(seed uint64, run int, tier string) *Case {
-			return genConc("C06", seed, run, concProfile{minWriters: 2, maxWriters: 5, maxTxns: 3, maxOps: 4, replicas: true,
+			return genConc("C06", seed, run, concProfile{minWriters: 2, maxWriters: 5, maxTxns: 3, maxOps: 4, replicas: true, snapshots: run % 2,
 				wUpdate: 6, wMerge: 5, wInsert: 4, wDeleteOwn: 3, wRangeWrite: 1, wKey: 8,
 				pAbort: 0.1, multiBlock: 0.5, maxCols: 8, pKeyCol: 0.2, indexes: true, stableRows: [2]int{2, 8}, linkDelay: 40}, knownAvoid("C06", seed, run))
 		},
@@ -124,9 +136,9 @@ func init() {
 	})
 	register(&PropDef{
 		ID: "C15", Quick: 5000, Thorough: 150000, Level: "exploration",
-		Rule: "same world as C06 without replicas; oracle on the recording logger: exactly one commit per (committed transaction, block it changed), nothing for rolled-back, read-only or failing-insert-only transactions, ids distinct and non-zero, per block strictly increasing in the order the commits were applied (= reached the logger), decoded operations equal the issued ones; non-trivial = at least one commit and one real scheduling choice; distinct = distinct (interleaving signature, end state)",
+		Rule: "same world as C06 without replicas (in odd runs a snapshotter thread takes snapshots meanwhile, so commits also go to the snapshot recorder); oracle on the recording logger: exactly one commit per (committed transaction, block it changed), nothing for rolled-back, read-only or failing-insert-only transactions, ids distinct and non-zero, per block strictly increasing in the order the commits were applied (= reached the logger), decoded operations equal the issued ones; non-trivial = at least one commit and one real scheduling choice; distinct = distinct (interleaving signature, end state)",
 		Gen: func(seed uint64, run int, tier string) *Case {
-			return genConc("C15", seed, run, concProfile{minWriters: 2, maxWriters: 4, minReaders: 0, maxReaders: 1, maxTxns: 3, maxOps: 4,
+			return genConc("C15", seed, run, concProfile{minWriters: 2, maxWriters: 4, minReaders: 0, maxReaders: 1, maxTxns: 3, maxOps: 4, snapshots: run % 2,
 				wUpdate: 8, wMerge: 4, wInsert: 4, wDeleteOwn: 3, wRangeRead: 2, wRangeWrite: 1, wPointRead: 2, wKey: 6,
 				pAbort: 0.2, pFailInsert: 0.15, multiBlock: 0.5, maxCols: 5, pKeyCol: 0.15, stableRows: [2]int{1, 5}}, knownAvoid("C15", seed, run))
 		},
@@ -177,17 +189,54 @@ func init() {
 	})
 	register(&PropDef{
 		ID: "C14", Quick: 2000, Thorough: 20000, Level: "fault_enumeration", Unit: "fault_points",
-		Rule: "histories: single-client histories ending in an empty, single-block or multi-block collection (all column kinds); against the final collection every write-call index k of the destination (fail-forever, and fail-once for odd k), every byte budget n while the stream is below the tier's bound (quick 1 KiB, thorough 8 KiB; otherwise write boundaries +-2 plus a sample) and 'temp dir unavailable' are injected; oracle: Snapshot returns non-nil iff the SimFile actually returned an error to some write (or the temp file could not be created); after each call the private TMPDIR is empty and /proc/self/fd is unchanged (GC off), and every 7th point a transaction commits, a Snapshot to a healthy SimFile succeeds and restores to the model; evaluations = fault points",
+		Rule: "even runs: single-client histories (every 20th with a state above 1 MiB: 16K rows x 100 incompressible bytes) ending in an empty, single-block or multi-block collection (all column kinds); against the final collection every write-call index k of the destination (fail-forever, and fail-once for odd k), every byte budget n while the stream is below the tier's bound (quick 1 KiB, thorough 8 KiB; otherwise write boundaries +-2 plus a sample) and 'temp dir unavailable' are injected; oracle: Snapshot returns non-nil iff the SimFile actually returned an error to some write (or the temp file could not be created); after each call the private TMPDIR is empty and /proc/self/fd is unchanged (GC off), and every 7th point a transaction commits, a Snapshot to a healthy SimFile succeeds and restores to the model (under a 20 s watchdog: a latch left held is a hang); odd runs (part B): a snapshotter thread writes to a SimFile with one drawn fault (write call 1..8 or byte budget 0..1500) while 1-3 writers commit, so the recorder is not empty and the log-copy phase writes too; same error-iff-fired, leak and restore oracles at quiescence, a deadlock after the failed snapshot is a violation; evaluations = fault points",
 		Gen: func(seed uint64, run int, tier string) *Case {
 			p := seqProfile{minSteps: 0, maxSteps: 10, wTxn: 20,
 				wInsert: 10, wAt: 6, wDelete: 3,
 				pAbort: 0.05, pMerge: 0.3, maxCols: 6, multiBlock: 0.4, pKeyCol: 0.15}
+			if run%2 == 1 {
+				// part B: a snapshotter writes to a faulty destination while writers commit, so that
+				// the recorder is not empty and the log-copy phase writes too
+				cs := genConc("C14", seed, run, concProfile{minWriters: 1, maxWriters: 3, maxTxns: 3, maxOps: 3, snapshots: 1,
+					wUpdate: 8, wMerge: 3, wInsert: 2, wDeleteOwn: 1,
+					pAbort: 0.05, multiBlock: 0.4, maxCols: 4, stableRows: [2]int{1, 4}}, knownAvoid("C14", seed, run))
+				if cs.Cfg.Prefill != nil {
+					cs.Cfg.Prefill.KeepFull, cs.Cfg.Prefill.Holes = nil, nil
+				}
+				fr := NewRng(seed, uint64(run), 91)
+				if fr.Chance(0.5) {
+					cs.Faults = []Fault{{Kind: "snap-write-call", At: fr.Range(1, 8)}}
+				} else {
+					cs.Faults = []Fault{{Kind: "snap-write-byte", N: fr.Intn(1500)}}
+				}
+				for i := range cs.Threads {
+					if cs.Threads[i].Role == "snapshot" {
+						cs.Threads[i].Txns = make([]TxnProg, 1)
+					}
+				}
+				return cs
+			}
+			if run%20 == 0 {
+				p.forceKinds = []Kind{KString}
+				p.multiBlock = 1
+			}
 			cs := genSeq("C14", seed, run, p, knownAvoid("C14", seed, run))
 			if cs.Cfg.Capacity > 20000 {
 				cs.Cfg.Capacity = 1024
 			}
 			if cs.Cfg.Prefill != nil {
 				cs.Cfg.Prefill.KeepFull, cs.Cfg.Prefill.Holes = nil, nil
+			}
+			if run%20 == 0 {
+				// every 20th history: a state larger than one 1 MiB s2 block (16K rows x 100
+				// incompressible bytes), so that a write fault surfaces in the middle of a block
+				// being written instead of at the final flush
+				for _, c := range cs.Schema {
+					if c.Kind == KString && c.Merge == "" {
+						cs.Cfg.Prefill = &Prefill{Blocks: 1, KeepFull: []int{0}, Holes: []uint32{16383}, BulkCol: c.Name, BulkLen: 100}
+						break
+					}
+				}
 			}
 			cs.Cfg.Params = map[string]int{"tier_thorough": b2i(tier == "thorough")}
 			return cs
@@ -196,6 +245,9 @@ func init() {
 			bound, samples := 1024, 100
 			if cs.Cfg.Params["tier_thorough"] == 1 {
 				bound, samples = 8192, 400
+			}
+			if cs.World == "conc" {
+				return runConc(cs, concOracles{snapfault: true})
 			}
 			return runSeq(cs, seqOracles{dump: true, final: func(w *World) { w.snapshotFaultChecks(bound, samples) }})
 		},
